@@ -169,8 +169,10 @@ var Fixtures = []Fixture{
 	{Name: "config/symlink-loop", Stage: "config", Spec: smallSpec, CfgArg: "loop.yml", Files: map[string]string{"loop.yml->loop2.yml": "", "loop2.yml->loop.yml": ""}, Fails: true, MustFail: true},
 	{Name: "config/bad-yaml", Stage: "config", Spec: smallSpec, Config: "generator: [unclosed\n", Fails: true, MustFail: true},
 	{Name: "config/not-a-mapping", Stage: "config", Spec: smallSpec, Config: "- a\n- b\n", Fails: true, MustFail: true},
-	{Name: "config/unknown-field", Stage: "config", Spec: smallSpec, Config: "generatorr:\n  features: {}\n", Fails: true},
-	{Name: "config/unknown-nested-field", Stage: "config", Spec: smallSpec, Config: "generator:\n  featurez: {}\n", Fails: true},
+	{Name: "config/unknown-field", Stage: "config", Spec: smallSpec, Config: "generatorr:\n  features: {}\n", Fails: true, MustFail: true},
+	{Name: "config/unknown-nested-field", Stage: "config", Spec: smallSpec, Config: "generator:\n  featurez: {}\n", Fails: true, MustFail: true},
+	{Name: "config/option-at-wrong-level", Stage: "config", Spec: smallSpec, Config: "ignore_not_implemented: [\"all\"]\n", Fails: true, MustFail: true},
+	{Name: "config/unknown-field-after-valid-ones", Stage: "config", Spec: smallSpec, Config: "generator:\n  features:\n    enable: [\"debug/example_tests\"]\n  ignore_not_implemented: [\"all\"]\nparser:\n  infer_types: true\n  alow_remote: true\n", Fails: true, MustFail: true},
 	{Name: "config/bad-filter-regex", Stage: "config", Spec: smallSpec, Config: "generator:\n  filters:\n    path_regex: \"(\"\n", Fails: true},
 	{Name: "config/bad-convenient-errors", Stage: "config", Spec: smallSpec, Config: "generator:\n  convenient_errors: maybe\n", Fails: true},
 	{Name: "config/unknown-feature-enable", Stage: "config", Spec: smallSpec, Config: "generator:\n  features:\n    enable: [\"paths/clinet\"]\n", Fails: true},
